@@ -33,6 +33,7 @@ const (
 	opLock
 	opWait
 	opSleep
+	opQuiesce // enabled only when nothing else at all (not even a sleeper) can run
 	opYield // explicit choice point (MapOrder / Choose)
 )
 
@@ -322,7 +323,7 @@ func (sc *sched) optionsOf(t *thread) []option {
 		return []option{{t: t}}
 	}
 	switch o.kind {
-	case opStart, opClose, opSleep:
+	case opStart, opClose, opSleep, opQuiesce:
 		return []option{{t: t}}
 	case opYield:
 		var r []option
@@ -432,6 +433,8 @@ func describe(o *op) string {
 		return "wg.wait @" + o.label
 	case opSleep:
 		return fmt.Sprintf("sleep %v @%s", o.dur, o.label)
+	case opQuiesce:
+		return "wait-for-quiescence"
 	case opYield:
 		return fmt.Sprintf("choose(%d) @%s", o.nChoice, o.label)
 	}
@@ -477,18 +480,21 @@ func (sc *sched) loop() {
 		runningEnabled := false
 		if sc.cur != nil && !sc.cur.finished {
 			o := sc.optionsOf(sc.cur)
-			if len(o) > 0 && !(sc.cur.pending.kind == opSleep && !sc.cur.pending.done) {
+			if len(o) > 0 && !((sc.cur.pending.kind == opSleep || sc.cur.pending.kind == opQuiesce) && !sc.cur.pending.done) {
 				runningEnabled = true
 				opts = append(opts, o...)
 			}
 		}
+		var last []option  // threads waiting for global quiescence
 		var later []option // sleeping threads go last (yield semantics): a polling loop cannot monopolise the default schedule
 		for _, t := range sc.threads {
 			if t.finished || (t == sc.cur && runningEnabled) {
 				continue
 			}
 			o := sc.optionsOf(t)
-			if t.pending != nil && t.pending.kind == opSleep && !t.pending.done {
+			if t.pending != nil && t.pending.kind == opQuiesce && !t.pending.done {
+				last = append(last, o...)
+			} else if t.pending != nil && t.pending.kind == opSleep && !t.pending.done {
 				later = append(later, o...)
 			} else {
 				opts = append(opts, o...)
@@ -505,6 +511,9 @@ func (sc *sched) loop() {
 			}
 		} else {
 			opts = later
+		}
+		if len(opts) == 0 {
+			opts = last
 		}
 		if len(opts) == 0 {
 			return // complete or deadlock: Run() decides
@@ -787,6 +796,14 @@ func Final() {
 	if s != nil {
 		s.final = true
 	}
+}
+
+// Quiesce blocks until no other thread can make a step (sleepers included): used by harness finisher threads.
+func Quiesce() {
+	if s == nil || s.aborting {
+		return
+	}
+	block(&op{kind: opQuiesce, label: "quiesce"})
 }
 
 // Pause is a scheduling point without effect (always enabled): the calling thread may be delayed here arbitrarily.
